@@ -24,6 +24,7 @@ type Config struct {
 	Trace       bool
 	RepoPrefix  string // module path of the code under test
 	MapOrderAll bool   // range over maps explores all orders
+	InitFuncs   func(pkgPath string) bool // run init#N functions of these packages too
 }
 
 type Violation struct {
@@ -160,6 +161,7 @@ type Exec struct {
 	res        *HarnessResult
 	Hooks      Hooks
 	descCache  map[string]*Opaque
+	Desc       *DescUniverse
 }
 
 // Hooks lets the driver plug environment models in.
@@ -189,7 +191,7 @@ func NewExec(prog *ssa.Program, solverKind string, timeoutMs int, cfg Config) (*
 	e := &Exec{Prog: prog, tb: tb, solver: s, Cfg: cfg,
 		pristine: map[*ssa.Global]*Obj{}, initDone: map[*ssa.Package]bool{},
 		intrinsics: map[string]func(e *Exec, args []Value, call *ssa.CallCommon) Value{},
-		descCache:  map[string]*Opaque{}}
+		descCache:  map[string]*Opaque{}, Desc: newDescUniverse()}
 	registerIntrinsics(e)
 	return e, nil
 }
@@ -721,6 +723,11 @@ func (e *Exec) lookupIntrinsic(fn *ssa.Function) func(e *Exec, args []Value, cal
 			return in
 		}
 	}
+	// protoc-gen-go's descriptor/type registration is reflection+unsafe: skipped; the
+	// descriptor globals are provided by the package-init hook instead
+	if n := fn.Name(); strings.HasPrefix(n, "file_") && strings.HasSuffix(n, "_init") && fn.Signature.Params().Len() == 0 && fn.Signature.Recv() == nil {
+		return func(e *Exec, args []Value, call *ssa.CallCommon) Value { return nil }
+	}
 	// harness intrinsics are matched by bare name prefix
 	if strings.HasPrefix(fn.Name(), "vh") && fn.Pkg != nil {
 		if in, ok := e.intrinsics["vh:"+fn.Name()]; ok {
@@ -966,9 +973,6 @@ func (e *Exec) ensureInit(pkg *ssa.Package) {
 	}
 	e.globals, e.stack, e.depth, e.steps = savedGlobals, savedStack, savedDepth, savedSteps
 	e.res = savedRes
-	if e.Hooks.PackageInit != nil {
-		e.Hooks.PackageInit(e, pkg)
-	}
 }
 
 // runInit interprets the synthetic package initialiser tolerantly.
@@ -977,6 +981,12 @@ func (e *Exec) runInit(pkg *ssa.Package, fn *ssa.Function) {
 	e.stack = append(e.stack, fn)
 	b := fn.Blocks[0]
 	isRepo := strings.HasPrefix(pkg.Pkg.Path(), e.Cfg.RepoPrefix) && e.Cfg.RepoPrefix != ""
+	hooked := false
+	defer func() {
+		if !hooked && e.Hooks.PackageInit != nil {
+			e.Hooks.PackageInit(e, pkg)
+		}
+	}()
 	for b != nil {
 		fr.visits[b]++
 		if fr.visits[b] > 4 {
@@ -1027,8 +1037,14 @@ func (e *Exec) runInit(pkg *ssa.Package, fn *ssa.Function) {
 					if callee.Name() == "init" && callee.Synthetic != "" {
 						continue // other package's initialiser: lazy
 					}
-					if strings.HasPrefix(callee.Name(), "init#") && !isRepo {
-						continue
+					if strings.HasPrefix(callee.Name(), "init#") {
+						if !isRepo && !(e.Cfg.InitFuncs != nil && e.Cfg.InitFuncs(pkg.Pkg.Path())) {
+							continue
+						}
+						if !hooked && e.Hooks.PackageInit != nil {
+							hooked = true
+							e.Hooks.PackageInit(e, pkg)
+						}
 					}
 				}
 				e.execTolerant(fr, instr)
